@@ -401,6 +401,7 @@ func runC05(c *Ctx) {
 		}
 	}
 	checkDownloadWrites(c, "roles.download-writes")
+	checkGenericErrorDiscipline(c, "pkg/core")
 }
 
 // condShape abstracts the guards of diffBundles: "present" for the ok flag of a map lookup, "hash-differs" for a
@@ -802,6 +803,7 @@ func runC09(c *Ctx) {
 	}
 	// RenameRepo iterates ListBundlesApply / ListLabelsApply: a dropped listing or apply error lets it delete the old repo
 	checkListApplySiblings(c, "rename.listing-errors")
+	checkGenericErrorDiscipline(c, "pkg/core")
 }
 
 // ---------------------------------------------------------------------------------------------------
@@ -1097,4 +1099,5 @@ func runC10(c *Ctx) {
 	checkSilentSkipOnlyNotExists(c, c.P.BodyOf(c.P.Func("pkg/core.getLabelAsync")), "listing.label-skip-only-not-exists", false)
 	checkSilentSkipOnlyNotExists(c, c.P.BodyOf(c.P.Func("pkg/core.getBundleAsync")), "listing.bundle-skip-only-not-exists")
 	checkNoRelabelAsMissing(c, "listing.no-relabel")
+	checkGenericErrorDiscipline(c, "pkg/core")
 }
